@@ -101,8 +101,10 @@ func BuildDIMap(identifiers []CodeDataStruct, identifierMap map[string]CodeDataS
 		if len(clz.Annotations) > 0 {
 			for _, annotation := range clz.Annotations {
 				if (annotation.IsComponentOrRepository()) && len(clz.Implements) > 0 {
-					superClz := identifierMap[clz.Implements[0]]
-					diMap[superClz.GetClassFullName()] = superClz.GetClassFullName()
+					// the injected interface stands for the component that implements it
+					if superClz, ok := identifierMap[clz.Implements[0]]; ok {
+						diMap[superClz.GetClassFullName()] = clz.GetClassFullName()
+					}
 				}
 			}
 		}
